@@ -737,3 +737,8 @@ func isErrorReturn(r *ssa.Return) bool {
 	}
 	return !isNilConst(retVals(r)[i])
 }
+
+func isStringType(t types.Type) bool {
+	b, ok := t.Underlying().(*types.Basic)
+	return ok && b.Info()&types.IsString != 0
+}
